@@ -521,6 +521,11 @@ public:
   string to_string() const;
   string to_fullstring() const;
   string quantity_string() const;
+#if defined(LEDGER_VERIF)
+  /** Verification hook: "num/den:prec:keep:commodity" with the exact
+      numerator and denominator of the stored rational. */
+  string verif_rational() const;
+#endif
 
   /*@}*/
 
